@@ -35,34 +35,46 @@ def h_from_ref(ctx):
     zipv = ctx.deviate("zip", [None, "DEF"])
     aad = ctx.deviate("aad", [None, b"aad!", b"a", b"abc"]) if form != "compact" else None
     apuv = ctx.deviate("apu/apv", [None, ("QWxpY2U", "Qm9i"), (None, "Qm9i")]) if alg.startswith("ECDH") else None
-    ppos = ctx.deviate("generated_params_in", ["recipient", "protected"]) if form != "compact" else "protected"
+    ppos = ctx.deviate("generated_params_in", ["recipient", "protected", "unprotected"]) if form != "compact" else "protected"
+    # the members that steer key management (alg, apu, apv) may sit in any of the three headers of a JSON serialization (RFC 7520 5.10-5.12)
+    kpos = ctx.deviate("alg_and_party_info_in", ["protected", "unprotected", "recipient"]) if form != "compact" else "protected"
     pname, plaintext = ctx.deviate("plaintext", c04.plaintexts())
     jwk = scen.key(kind)
     sender_jwk = scen.key(kind, 1) if is_1pu else None
-    prot = {"alg": alg, "enc": enc, "cty": "text/é"}
+    prot = {"enc": enc, "cty": "text/é"}
+    km = {"alg": alg}
     if zipv:
         prot["zip"] = zipv
     if apuv:
         if apuv[0]:
-            prot["apu"] = apuv[0]
-        prot["apv"] = apuv[1]
+            km["apu"] = apuv[0]
+        km["apv"] = apuv[1]
+    unprot, rhdr = None, None
+    if kpos == "protected":
+        prot = {"alg": alg, **prot, **{k: v for k, v in km.items() if k != "alg"}}
+    elif kpos == "unprotected":
+        unprot = km
+    else:
+        rhdr = km
 
     def speller(p):
         return dict(A.spellings(p)).get(spell) or dict(A.spellings(p))["canonical"]
     rec = {"jwk": jwk if jwk["kty"] == "oct" else rjwk.public_of(jwk)}
+    if rhdr:
+        rec["header"] = rhdr
     if is_1pu:
         rec["sender_jwk"] = sender_jwk
     if alg.startswith("PBES2"):
         rec["p2s"] = P2S
         rec["p2c"] = 1000
-    token = rjwe.encrypt(prot, plaintext, [rec], aad=aad, form=form, protected_json=speller, param_pos=ppos)
+    token = rjwe.encrypt(prot, plaintext, [rec], unprotected=unprot, aad=aad, form=form, protected_json=speller, param_pos=ppos)
     # sanity: the reference decrypts its own token
     assert rjwe.decrypt(token, jwk, sender_jwk=rjwk.public_of(sender_jwk) if is_1pu else None)[0] == plaintext
     priv = A.jkey(jwk, "dict")
     sender_pub = A.jkey(sender_jwk, "dict", private=False) if is_1pu else None
     fam = alg.split("+")[0] if alg.startswith(("ECDH", "PBES2")) else (alg if not alg.endswith("GCMKW") else "GCMKW")
     tag = f"{fam} {ENC[enc][0]} {form}"
-    ctxs = f"alg={alg} key={kind} enc={enc} spelling={spell} zip={zipv} aad={aad} apu/apv={apuv} params_in={ppos} plaintext={pname}"
+    ctxs = f"alg={alg} key={kind} enc={enc} spelling={spell} zip={zipv} aad={aad} apu/apv={apuv} params_in={ppos} alg_in={kpos} plaintext={pname}"
     d = scen.jwe_decrypt(token, priv, [alg, enc, "DEF"], sender_key=sender_pub)
     vs = []
     dev = [n for n, v in (("spelling", spell != "canonical"), ("zip", zipv), ("aad", aad), ("apu", apuv)) if v]
@@ -73,7 +85,7 @@ def h_from_ref(ctx):
         vs.append(viol(f"joserfc decrypts a foreign JWE to a different plaintext: {tag}", ctxs))
     elif d.value[1] != json.loads(b64.dec(token.split(".")[0] if isinstance(token, str) else token["protected"])):
         vs.append(viol(f"joserfc returns a different protected header for a foreign JWE: {tag}", ctxs))
-    return Outcome(f"{'ok' if not vs else 'bad'}:{fam}:{ENC[enc][0]}:{form}", vs, nontrivial=("ref->lib", alg, kind, enc, form, spell, zipv, aad, apuv, ppos, pname))
+    return Outcome(f"{'ok' if not vs else 'bad'}:{fam}:{ENC[enc][0]}:{form}", vs, nontrivial=("ref->lib", alg, kind, enc, form, spell, zipv, aad, apuv, ppos, kpos, pname))
 
 
 def h_to_ref(ctx):
